@@ -101,9 +101,9 @@ def oracle(case, rec):
         if algo == "exact-grid":
             grid = np.linspace(su["t0"], t_end, case["ngrid"])
             np.random.seed(su["np_seed"])
-            Xs, _c, _t = call("C10/" + algo, case, model.solve_stochast, grid, 2, exact=True, full_output=True)
+            Xs, _c, _t = stoch.simulate("C10", "C10/" + algo, case, model.solve_stochast, grid, 2, exact=True, full_output=True)
         else:
-            Xs, _c, _t = call("C10/" + algo, case, stoch.run_raw, model, t_end, 2, exact, su["np_seed"])
+            Xs, _c, _t = stoch.simulate("C10", "C10/" + algo, case, stoch.run_raw, model, t_end, 2, exact, su["np_seed"])
     except stoch.StepBudget:
         raise Inconclusive("step budget")
     total0 = float(np.sum(su["x0"]))
